@@ -79,6 +79,25 @@ Theorem C15_merge_texts pm ed (streams : list (list pmsg)) r1 r2 st s1 out1 :
 Proof. exact (merge_texts pm ed streams r1 r2 st s1 out1). Qed.
 Print Assumptions C15_merge_texts.
 
+(* streams of full messages: the duplicate key is the whole rendered text - head line of the
+   last frame plus one note line per frame (location template) - as hasToLog builds it *)
+Theorem C15_merge_msgs_texts pm ed vb (streams : list (list msg)) r1 r2 st s1 out1 :
+  interleave streams r1 -> interleave streams r2 ->
+  log_run pm ed st (map (pmsg_of_msg vb) r1) = Some (s1, out1) ->
+  exists s2 out2, log_run pm ed st (map (pmsg_of_msg vb) r2) = Some (s2, out2) /\ h_nomsg s1 = h_nomsg s2
+                  /\ Permutation (map (fun m => (p_internal m, p_text m)) (filter (fun m => negb (p_internal m)) out1))
+                                 (map (fun m => (p_internal m, p_text m)) (filter (fun m => negb (p_internal m)) out2)).
+Proof. exact (merge_msgs_texts pm ed vb streams r1 r2 st s1 out1). Qed.
+Print Assumptions C15_merge_msgs_texts.
+
+(* non-vacuity: same id, message and primary location, different note trails -> both forwarded *)
+Example C15_trails_both_forwarded :
+  exists s o, log_run (fun a b => str_eqb a b) false (mkH [] []) (map (pmsg_of_msg false) [trail_a; trail_b]) = Some (s, o)
+              /\ length o = 2%nat
+              /\ firstn 10 (render false trail_a) = firstn 10 (render false trail_b)
+              /\ render false trail_a <> render false trail_b.
+Proof. exact trails_both_forwarded. Qed.
+
 Theorem C15_merge2_order_independent pm ed (Obs : Type) (obs : pmsg -> Obs) :
   (forall a b, p_internal a = false -> p_internal b = false -> p_text a = p_text b -> obs a = obs b) ->
   forall (l1 l2 r1 r2 : list pmsg) st s1 out1,
